@@ -18,7 +18,7 @@ META = {
 ADV = ['x" OR 1=1 --', 'a"b', "a'b", "'", '"', '""', "''", 'a;b', '--', '/*', '*/', 'a.b', '"a"."b"', 'café',
        'count(*) from secrets --', '(select password from users limit 1)', 'name desc', 'a b', ' a ', '[x]', '`x`',
        'a\\', 'x"; DROP TABLE secrets; --', "x' OR '1'='1", '1=1', 'a,b', '~', 'a--b', 'a/*b*/c', 'NULL', 'select',
-       '$1', '?', 'a\tb', 'a\nb', '".', '."', 'a"."b', 'haſ', 'ı', 'x ', 'count(', 'count()', 'COUNT(*)',
+       '$1', '?', 'a-b', 'a\tb', 'a\nb', '".', '."', 'a"."b', 'haſ', 'ı', 'x ', 'count(', 'count()', 'COUNT(*)',
        'count(*) as n', 'Count(id) AS Total', 'count(*) as', 'count(*) as a b', 'count(a b)', 'count(*)x', ' count(*) ']
 NAMES = ["id", "name", "city", "age", "t1", "_row_id_", "Name", "x1", "a_b"]
 OPS2 = ["EQ", "LT", "LE", "GT", "GE", "eq", "lt", "Ge"]
@@ -194,6 +194,12 @@ def gen_cases(rng, n):
     for c in out:
         if "keys" in c:
             c["keys"] = sorted(c["keys"], key=lambda s: s.encode("utf8"))
+    for a in ADV:          # every adversarial string once in every position
+        out.append({"k": "sort", "sort": [a]})
+        out.append({"k": "col", "columns": a})
+        out.append({"k": "fn", "table": a, "user": a, "pg": len(a) % 2 == 0})
+        out.append({"k": "where", "filters": ["EQ(name,%s)" % estr(a), "CONTAINS(city,%s)" % estr(a)]})
+    n += len(out)
     while len(out) < n:
         r = rng.random()
         table = "t1" if rng.random() < 0.6 else gen_name(rng)
@@ -331,7 +337,7 @@ def run(ck):
     if not ok:
         ck.violation("harness-build", "harness for %s does not build:\n%s" % (pkg, binp[-1500:]), replay={"log": binp[-3000:]}, found_input=False)
         return
-    cases = gen_cases(ck.rng, 450 if quick else 4000)
+    cases = gen_cases(ck.rng, 250 if quick else 3000)
     if ck.replay_file:
         cases = json.load(open(ck.replay_file))["replay"].get("cases", [])
     inp, outp = os.path.join(ck.work, "in.jsonl"), os.path.join(ck.work, "out.jsonl")
